@@ -91,11 +91,20 @@ impl PeerRun {
           let (m, cv) = &*shared;
           let deadline = std::time::Instant::now() + if strict_ut_id != 0 { Duration::from_secs(5) } else { Duration::from_millis(40) };
           let mut g = m.lock().unwrap();
+          // a first stage of exactly the 68 handshake bytes marks a reactive peer: the second stage (its extended
+          // handshake) waits for the client's own extended handshake, not for a request
+          let reactive_wait = k == 1 && stages[0].len() == 68;
           loop {
-            let n = requests_in(&g.data, strict_ut_id).len();
-            if n > seen_requests || g.closed {
-              seen_requests = n;
-              break;
+            if reactive_wait {
+              if g.data.len() >= 68 + 6 || g.closed {
+                break;
+              }
+            } else {
+              let n = requests_in(&g.data, strict_ut_id).len();
+              if n > seen_requests || g.closed {
+                seen_requests = n;
+                break;
+              }
             }
             let now = std::time::Instant::now();
             if now >= deadline {
